@@ -2076,7 +2076,21 @@ def process_template(unit, tmpl_path, prelude_dir):
                     raise Unsupported('%s:%d: non-directive line inside //@block' % (tmpl_path, j + 1))
                 body.append(lines[j].split('//@', 1)[1])
                 j += 1
-            emit_block(unit, d[6:], body, '%s:%d' % (os.path.basename(tmpl_path), i + 1))
+            try:
+                emit_block(unit, d[6:], body, '%s:%d' % (os.path.basename(tmpl_path), i + 1))
+            except AnchorLost as e_:
+                # the statement range of this block is not found on this tree: the block is left out, the other functions of the
+                # unit are still decided, and every property the block is tagged with is answered `undecided` unless another
+                # obligation fails
+                nm_ = next((r_.strip().split()[1] for r_ in body if r_.strip().split()[:1] == ['name'] and len(r_.strip().split()) > 1), '?')
+                pm_ = next((r_.strip()[5:].strip() for r_ in body if r_.strip().split()[:1] == ['props']), '')
+                ps_ = [x for x in re.split(r'[,\s]+', pm_) if x]
+                for r_ in body:
+                    for lm_ in re.finditer(r'//#\s*([A-Z0-9,]+):', r_):
+                        for q_ in lm_.group(1).split(','):
+                            if q_ and q_ not in ps_:
+                                ps_.append(q_)
+                unit.skipped_blocks.append({'block': nm_, 'props': ps_, 'why': 'anchor lost: %s' % e_})
             i = j + 1
         elif d.startswith('fn '):
             j = i + 1
